@@ -702,10 +702,12 @@ def exhaustive_cases(ctx, t, nkeys, max_states=None, cursor_walks=True):
             for k in range(-1, nkeys + 1):
                 for before in (0, 1):
                     walk = [rng.choice([NEXT, PREV]) for _ in range(6)]
-                    yield "exh-cursor", pre + [[CUR, 0], [SEEK, 0, k, before]] + [[w, 0] for w in walk]
+                    if ctx.tier == "thorough" or (k + before) % 2 == 0:
+                        yield "exh-cursor", pre + [[CUR, 0], [SEEK, 0, k, before]] + [[w, 0] for w in walk]
                     # parked across one mutation
-                    m = rng.choice([[INS, 0, rng.randrange(nkeys), 200, 0], [DEL, 0, rng.randrange(nkeys)]])
-                    yield "exh-cursor", pre + [[CUR, 0], [SEEK, 0, k, before], [rng.choice([NEXT, PREV]), 0], m] + [[w, 0] for w in walk[:4]]
+                    if ctx.tier == "thorough" or (k + before) % 2 == 1:
+                        m = rng.choice([[INS, 0, rng.randrange(nkeys), 200, 0], [DEL, 0, rng.randrange(nkeys)]])
+                        yield "exh-cursor", pre + [[CUR, 0], [SEEK, 0, k, before], [rng.choice([NEXT, PREV]), 0], m] + [[w, 0] for w in walk[:4]]
             n = nkeys + 2
             yield "exh-cursor", pre + [[CUR, 0], [FIRST, 0]] + [[NEXT, 0]] * n + [[PREV, 0]] * n
             yield "exh-cursor", pre + [[CUR, 0], [LAST, 0]] + [[PREV, 0]] * n + [[NEXT, 0]] * n
@@ -749,7 +751,7 @@ def cases(ctx):
         yield from exhaustive_cases(ctx, 3, 18, max_states=1500, cursor_walks=False)
         ctx.notes["exhaustive_sequences"] = "all insert/delete sequences of length 4 over keys 0..5 at t=3; all reachable structures (any length) over keys 0..6"
     else:
-        yield from short_sequences(ctx, 3, 6, 3)
+        yield from short_sequences(ctx, 3, 6, 2)
     ctx.notes["exhaustive"] = True
     # random histories
     plan = []
